@@ -12,6 +12,7 @@ import (
 	"sort"
 	"strings"
 	"sync"
+	"sync/atomic"
 	"testing"
 	"testing/synctest"
 	"time"
@@ -143,7 +144,8 @@ func (repsim) Generate(rng *Rand, prop, tier string) *Script {
 		"w": 30, "r": 10, "snap": 10, "rm": 4, "mark": 2, "clean": 2, "ckpt": 2, "revert": 2,
 		"reopen": 3, "reload": 2, "resize": 1, "punch": 4, "mode": 1, "rebuilding": 1, "setrev": 1,
 		"cw": 1, "close": 1, "rest": 1, "bad": 2, "sync": 1, "wbig": 6,
-		"wf": 2, "rf": 1, // one data-file call of the operation fails (EIO / ENOSPC / short write)
+		"copen": 1,          // concurrent attach attempts on a closed replica
+		"wf":    2, "rf": 1, // one data-file call of the operation fails (EIO / ENOSPC / short write)
 	}
 	if prop == "C01" || prop == "C10" {
 		w["wf"], w["rf"] = 5, 2
@@ -160,7 +162,7 @@ func (repsim) Generate(rng *Rand, prop, tier string) *Script {
 	case "C16":
 		w["resize"], w["reopen"], w["snap"] = 8, 5, 10
 	case "C17":
-		w["close"], w["mode"], w["rebuilding"], w["rest"], w["bad"], w["setrev"] = 8, 8, 5, 10, 5, 4
+		w["close"], w["mode"], w["rebuilding"], w["rest"], w["bad"], w["setrev"], w["copen"] = 8, 8, 5, 10, 5, 4, 4
 	}
 	// drop a random subset of op kinds (swarm testing)
 	for _, k := range []string{"rm", "mark", "clean", "revert", "reload", "resize", "mode", "rebuilding", "setrev", "cw", "close", "rest", "bad", "sync"} {
@@ -277,6 +279,9 @@ func (repsim) Generate(rng *Rand, prop, tier string) *Script {
 			op.A = int64(rng.Range(1, 1000))
 		case "cw":
 			op.A = int64(rng.Range(2, 6))
+		case "copen":
+			op.A = int64(rng.Range(2, 4))
+			op.F = rng.Bool(70) // the first opener pauses inside preload
 		case "rest":
 			op.A = int64(rng.Intn(64))
 		case "bad":
@@ -347,6 +352,7 @@ type repRun struct {
 	victimOp  func() // never returns
 	exited    bool   // the replica process called exit
 	punchEver bool   // reclamation has been enabled at some point of this run
+	openPause int32  // copen: number of openers that still pause at the preload fault point
 	diskMu    sync.Mutex
 	diskArm   *diskArm // one-shot data-file fault (ops wf / rf)
 	// bookkeeping for non-triviality
@@ -440,6 +446,9 @@ func (rr *repRun) run() {
 	w.HookFn = func(g *simrt.G, name string, args ...interface{}) {
 		if name == "AddPunchHoleTimeout" && rr.lag {
 			<-rr.gate
+		}
+		if name == "AddPreloadTimeout" && atomic.AddInt32(&rr.openPause, -1) >= 0 {
+			simrt.Sleep(time.Second)
 		}
 	}
 	w.DiskFn = rr.diskFn
@@ -974,6 +983,70 @@ func (rr *repRun) exec(i int, op Op) {
 		}
 		m.open = false
 		m.dirty = false
+	case "copen":
+		// C17: a replica can be attached only while it is closed, so of several attach
+		// attempts arriving together exactly one may succeed
+		var err error
+		if m.open {
+			if !rr.do("close", func() { err = srv.Close() }) {
+				return
+			}
+			if err != nil {
+				rr.viol(rr.s.Prop, "unexpected-close-error", "close failed: %v", err)
+				return
+			}
+		}
+		m.open, m.dirty = false, false
+		k := int(op.A)
+		if k < 2 {
+			k = 2
+		}
+		errs := make([]error, k)
+		if op.F {
+			atomic.StoreInt32(&rr.openPause, 1)
+		}
+		step := rr.step
+		ok := rr.do("copen", func() {
+			srv.SetPreload(true)
+			ch := make(chan int, k)
+			for j := 0; j < k; j++ {
+				j := j
+				simrt.GoNamed(nil, fmt.Sprintf("op%d-opener%d", step, j), func() {
+					errs[j] = srv.Open()
+					ch <- j
+				})
+			}
+			for j := 0; j < k; j++ {
+				<-ch
+			}
+			srv.SetPreload(rr.s.Cfg["preload"] != 0)
+		})
+		atomic.StoreInt32(&rr.openPause, 0)
+		if !ok {
+			return
+		}
+		won := 0
+		for _, e := range errs {
+			if e == nil {
+				won++
+			}
+		}
+		rr.note("copen", fmt.Sprint(won))
+		rr.res.stat("concurrent_opens", 1)
+		if won != 1 {
+			rr.viol("C17", "replica-opened-more-than-once", "%d of %d simultaneous open requests on a closed replica succeeded (errors: %v)", won, k, errs)
+			return
+		}
+		if !rr.do("setmode", func() { err = srv.SetReplicaMode("RW") }) {
+			return
+		}
+		if err != nil {
+			rr.viol(rr.s.Prop, "unexpected-mode-error", "SetReplicaMode(RW) after open failed: %v", err)
+			return
+		}
+		m.open, m.mode = true, "RW"
+		rr.mutations++
+		rr.compareLive("C01", "read-after-reopen-mismatch")
 	case "reload":
 		var err error
 		if !rr.do("reload", func() { err = srv.Reload() }) {
